@@ -6,7 +6,7 @@
 //! oracle: the partition property restated over the implementation's outputs (naive path) and the
 //!       line-coverage / non-empty clause over the structural chunker's output (validation only).
 use memvid_core::verif_hooks as vh;
-use memvid_core::{detect_structure, normalize_text};
+use memvid_core::{Memvid, detect_structure, normalize_text};
 use mvh::*;
 
 type PlanData = Option<(Vec<(usize, usize)>, Vec<String>)>;
@@ -85,8 +85,17 @@ fn structural_oracle(text: &str, chunks: &[String]) -> Vec<StructVerdict> {
             if digits > 0 && t[digits..].starts_with(". ") { &t[digits + 2..] } else { t }
         };
         let sk = skeleton(body);
-        let (sig, what) = if sk.is_empty() {
-            ("structural-markup-only-line-not-in-any-chunk", format!("line {i} {t:?} (no alphanumeric content) is in no chunk"))
+        // horizontal rule (`---`, `***`, `___`) or table separator row (`|---|:---:|`)
+        let is_rule = t.chars().count() >= 3 && (t.chars().all(|c| c == '-') || t.chars().all(|c| c == '*') || t.chars().all(|c| c == '_'));
+        let is_table_sep = t.starts_with('|') && t.contains('-') && t.chars().all(|c| matches!(c, '|' | '-' | ':' | ' '));
+        let squeeze = |x: &str| -> String { x.chars().filter(|c| !c.is_whitespace()).collect() };
+        let tq = squeeze(t);
+        let (sig, what) = if chunks.iter().any(|c| squeeze(c).contains(&tq)) {
+            ("structural-line-reformatted", format!("line {i} {t:?} appears only with different spacing"))
+        } else if sk.is_empty() && (is_rule || is_table_sep) {
+            ("structural-markup-only-line-not-in-any-chunk", format!("line {i} {t:?} (horizontal rule / table separator row, no alphanumeric content) is in no chunk"))
+        } else if sk.is_empty() {
+            ("structural-line-content-lost", format!("line {i} {t:?} is in no chunk in any form"))
         } else if skels.iter().any(|s| s.contains(&sk)) {
             ("structural-line-reformatted", format!("line {i} {t:?} appears only re-formatted (same alphanumeric content, different spacing/markup)"))
         } else if all_skel.contains(&sk) {
@@ -309,7 +318,7 @@ impl Case {
     }
 }
 
-struct Ctx { drv: Option<Driver>, known: Vec<String>, verbose: bool, min_chars: usize, dflt: usize }
+struct Ctx { drv: Option<Driver>, known: Vec<String>, verbose: bool, min_chars: usize, dflt: usize, mem: Option<Memvid> }
 
 impl Ctx {
     fn ask(&mut self, line: &str) -> Option<String> { self.drv.as_mut().map(|d| d.ask(line)) }
@@ -437,6 +446,14 @@ fn run_case(case: &Case, cx: &mut Ctx, sum: &mut Summary) {
                 Ok(r) => r,
                 Err(p) => { sum.oracle_violation("panic-in-plan-text-chunks", &p, case.to_json()); return; }
             };
+            if let Some(mem) = &cx.mem {
+                let public = mem.preview_chunks(raw.as_bytes());
+                if public != imp.as_ref().map(|p| p.1.clone()) {
+                    sum.disagreement("Memvid::preview_chunks vs verif_hooks::plan_text_chunks", case.to_json(),
+                        &format!("{:?}", imp.as_ref().map(|p| p.1.len())), &format!("{:?}", public.as_ref().map(|c| c.len())));
+                }
+                sum.branch("preview-chunks-compared");
+            }
             let Some(norm) = normalize_text(raw, usize::MAX).map(|n| n.text) else {
                 sum.branch("plan-normalize-none");
                 if imp.is_some() { sum.oracle_violation("plan-for-unnormalizable-text", "normalize_text is None but a plan exists", case.to_json()); }
@@ -545,15 +562,19 @@ fn main() {
     let drv = if args.driver.as_os_str() == "none" { None } else { Some(Driver::spawn(&args.driver).expect("spawn driver")) };
     let known: Vec<String> = args.extra.get("known").map(|s| s.split(',').map(|x| x.to_string()).collect()).unwrap_or_default();
     let (dflt, min_chars) = vh::chunk_constants();
-    let mut cx = Ctx { drv, known, verbose: false, min_chars, dflt };
+    // one real Memvid handle: the public entry `Memvid::preview_chunks` must agree with the hook
+    let tmp = tempfile::tempdir().expect("tempdir");
+    let mem = Memvid::create(tmp.path().join("c34.mv2")).ok();
+    let mut cx = Ctx { drv, known, verbose: false, min_chars, dflt, mem };
     let mut sum = Summary::new("C34", &args,
-        "four streams: (M) build_chunk_manifest on texts of 0..700 chars (quick) with chunk sizes 1..200 and 1200 — prose, single long words, \
+        "five streams + fixed corpus: (M) build_chunk_manifest on texts of 0..700 chars (1500 thorough) with chunk sizes 0..260 and 1200 (texts to 4000/9000) — prose, single long words, \
          boundary characters planted at target/window edges, whitespace-heavy, full-Unicode letters/whitespace/near-miss characters; \
          (C) choose_chunk_boundary with random start/target/slack incl. calls outside the loop's precondition; \
-         (E) choose_chunk_boundary exhaustively for every text over {a . \\n space} of length <= 4 (quick) / 6 (thorough), every start < target <= len, slack 0..3; \
-         (N) plan_naive_chunks on texts of 1190..6500 chars (around 1200, 1440 and 2400); \
-         (P) plan_text_chunks on raw documents (paragraphs, headings, lists, rules, quotes, tables, code fences, CRLF) cut to normalized length threshold-3..+3 or free; \
-         non-trivial = a manifest/plan was produced (M,N), call inside the precondition (C), normalized length >= threshold (P); distinct = blake3(input)+result");
+         (E) choose_chunk_boundary exhaustively for every text over {a . \\n space} of length <= 4 (6 thorough), every start < target <= len, slack 0..3; \
+         (N) plan_naive_chunks on texts of 1190..6500 chars (12000 thorough), dense around 1200, 1440 and 2400; \
+         (P) plan_text_chunks (and Memvid::preview_chunks) on raw documents (paragraphs, headings, lists, rules, quotes, tables incl. ragged, code fences incl. unclosed, lone table-row lines, CRLF) \
+         of ~1500..7000 chars (15000 thorough), 40% cut to normalized length threshold-3..+3; \
+         non-trivial = a manifest/plan was produced (M,N), call inside the precondition (C,E), normalized length >= threshold (P); distinct = blake3(input)+result");
     sum.expect_branches(&["manifest-some", "manifest-none", "manifest-single-range", "boundary-final",
         "boundary-newline-forward", "boundary-newline-backward", "boundary-sentence-forward", "boundary-sentence-backward",
         "boundary-whitespace-forward", "boundary-whitespace-backward", "boundary-hard-cut-at-target",
@@ -561,7 +582,7 @@ fn main() {
         "naive-some", "naive-none", "naive-none-between-chunk-and-threshold",
         "plan-below-threshold", "plan-unstructured", "plan-structured-some",
         "plan-len-threshold-minus-1", "plan-len-threshold", "plan-len-threshold-plus-1", "predicate-tables-compared",
-        "exhaustive-small-scope-done", "structural-clause-holds"]);
+        "exhaustive-small-scope-done", "structural-clause-holds", "preview-chunks-compared"]);
 
     if args.mode == "replay" {
         let case = load_replay(args.replay_file.as_ref().expect("replay file"));
